@@ -54,6 +54,59 @@ CHECKS = {
             'Decides the type partition, null-first, antisymmetry-by-construction of every scalar branch, element-wise container comparison, sign tests of the six '
             'relational operators and the comparison usage of sort/indexOf/min/max/dataSort. Transitivity inside one host type is the host\'s.',
             'DESIGN.md 4/C11', ''),
+    'C02': ('constant-folded precedence table compared with the ladder (196 entries), operator-set agreement of four tables, ordered-alternation rule, shape recogniser of the '
+            'right-spine re-ordering loop, operand-branch order by regex classification, suffix lattice for remainders and error texts',
+            'Decides the table and the shape of the re-ordering algorithm (which together give precedence and left associativity for every chain by the spine invariant), '
+            'operand dispatch order, unary nesting, rejection of trailing text / unmatched parentheses, identifier agreement. The 14^k enumeration of chains is execution-based and not attempted.',
+            'DESIGN.md 4/C02', ''),
+    'C06': ('E6 scenario analysis of parse_script (failing sub-expression oracle, continuation lines, error shapes) with linear normal forms of the reported column validated '
+            'against regex group positions; exception-escape sweep; automata inclusion of the number regex in float(); algebraic caret identity per elision branch',
+            'Decides: every sub-expression syntax error is re-raised with full line, line number start+index and a column equal to group offset + inner column; errors of ill-formed shapes '
+            'name a line of the input; open blocks / continuations at end of input are rejected; each statement form emits exactly one statement; only BareScriptParserError escapes; caret under elision.',
+            'DESIGN.md 4/C06', ''),
+    'C10': ('regex-structure rules (blank tolerance; automata closure in the thorough tier), splitter / continuation / join recognisers, E6 comment-insertion scenarios, '
+            'effect analysis for module-level state',
+            'Decides blank tolerance of every statement and token regex, one CRLF/LF splitter for both input forms, continuation detection and join, comment/blank-line invariance of the '
+            'emitted model for all shapes to depth 2, and statelessness of the parser. Full metamorphic equality over all programs x rewrites is execution-based.',
+            'DESIGN.md 4/C10', ''),
+    'C13': ('type-atom evaluation of value_string, shape rule + automata for the clean-up regex, automata inclusion printed-number language in literal regex, dominance rules for the parsers',
+            'Decides what the repository adds around CPython\'s repr/float round trip: dispatch order, the clean-up can only delete an all-zero fraction at the end, printed numbers are '
+            'literals, parsers map non-finite / non-numeric text to null. Round-tripping over all doubles is the trusted base.',
+            'DESIGN.md 4/C13', ''),
+    'C14': ('encoder-configuration rules, automata equivalence of the string-token alternative with the JSON string-token language, follow-set rule for the number clean-up, '
+            'key-serialisation sites',
+            'Decides that post-processing of encoder output cannot alter string tokens and strips the fraction of integral numbers in every structural position, that every encoder '
+            'sorts keys / rejects NaN, and that jsonParse does not pre-process text. jsonParse(jsonStringify(v)) == v then rests on the host json contract.',
+            'DESIGN.md 4/C14', ''),
+    'C15': ('per-function sibling rules over the whole registry: failure-value agreement, CFG validate-before-mutate, bounds facts at index sinks, aliasing contract, type-atom evaluation '
+            'of the argument type test, thin-wrapper table, default idiom',
+            'Decides the per-function disciplines whose violation is how sequence/map/string contracts break (documented failure values, arguments unchanged on failure, bounds, fresh vs same '
+            'container, type strictness, host-operation wrappers). Reference-model equality over call histories is execution-based and not decided.',
+            'DESIGN.md 4/C15', ''),
+    'C16': ('shape recogniser for carry blocks bound to argument-model positions (unit table), day-loop step rules, getter sibling table, normalisation branches, formatter/parser facts with '
+            'automata inclusion over all digits, effect analysis of the ISO parser',
+            'Decides unit tables, carry order, month-length recomputation, getter/attribute agreement, formatter <-> parser symmetry (local zone, millisecond truncation, language inclusion) and '
+            'totality of the ISO parser. Everything quantified over time zones / calendar correctness for all component values is NOT decided.',
+            'DESIGN.md 4/C16', ''),
+    'C17': ('dataflow of the resolved-location variable through the include branch, who-writes urlFn, ordered-step and handler-scope rules, E6 include scenarios, case table of url_file_relative, CLI wiring',
+            'Decides resolution against the including file (compositional step), isolation of the re-based urlFn, fetch/parse/lint/execute order once per include, global scope, failure '
+            'reporting naming the resolved location, include merging/system flag in the parser, url_file_relative cases, CLI loader.',
+            'DESIGN.md 4/C17', ''),
+    'C18': ('effect analysis (model immutability), schema path typing with guard recognition for optional members, traversal-exhaustiveness against schema expression positions, '
+            'label-table scoping rules, warning-loop order rule',
+            'Decides purity, never-raises on schema-valid models (optional members guarded), completeness of use collection and pointless test, per-scope label tables matching the runtime '
+            'search scope, deterministic warning order. Behaviour preservation of acting on a warning needs an execution oracle.',
+            'DESIGN.md 4/C18', ''),
+    'C19': ('recognisers for join name-map stores / renaming-loop condition / row construction / key functions, filter and field loops, aggregate dispatch vs schema enum and reducer table, '
+            'sort/top sites, CSV inference tests; shared C12/C16/C09 clauses',
+            'Decides structural necessary conditions of the relational meaning (join never overwrites a left field, same key function, filter by value_boolean in order, aggregate table, '
+            'partition by serialised key, top n, CSV inference by is-None tests). Relational meaning over all tables is execution-based.',
+            'DESIGN.md 4/C19', ''),
+    'C20': ('independent BareScript front-end (E9) over the shipped .bare sources: well-formedness, lint-equivalent facts, call resolution / arity / definitely-null arguments against the library '
+            'argument models, two-point side taint and push/guard rules inside diffLines; shared C15.H/C11.F clauses',
+            'Decides that every shipped script parses and is lint-clean (re-derived), and for diffLines: every block is pushed onto the returned array, Remove/Add/Identical blocks are built from '
+            'the right side(s), pushes are guarded against empty line lists, no undefined name is passed where the call would always fail. Reconstruction for all input pairs needs execution.',
+            'DESIGN.md 4/C20', ''),
     'C12': ('forward may-taint dataflow (per-function CFG, inter-procedural by parameter binding) from maybe-float numbers '
             'to integer-only operand positions; type-test lint; literal-constructor rule',
             'Decides the structural clause of C12: every index/count/size/radix/digit-count position that a float-spelled '
